@@ -42,6 +42,7 @@ var Types = []Type{
 	wt[rawSign1]("Sign1Tag[Raw]"), wt[entrySign1]("Sign1Tag[Entry]"), wt[to1dSign1]("Sign1Tag[To1d]"),
 	wt[proofSign1]("Sign1Tag[OVHProof]"), wt[setupSign1]("Sign1Tag[DeviceSetup]"), wt[eatSign1]("Sign1Tag[EAT]"),
 	wt[mac0Raw]("Mac0Tag"), wt[enc0Raw]("Encrypt0Tag"),
+	wt[cose.Encrypt0[cbor.RawBytes, []byte]]("Encrypt0"), wt[cose.Mac0[cose.Encrypt0[cbor.RawBytes, []byte], []byte]]("Mac0[Encrypt0]"),
 	wt[fdo.Voucher]("Voucher"), wt[fdo.VoucherHeader]("VoucherHeader"), wt[fdo.VoucherEntryPayload]("VoucherEntryPayload"),
 	wt[fdo.DeviceCredential]("DeviceCredential"), wt[blob.DeviceCredential]("blob.DeviceCredential"),
 	wt[fdo.VerifHelloDevice]("TO2.HelloDevice"), wt[fdo.VerifOVHProof]("TO2.OVHProof"), wt[fdo.VerifOVEntry]("TO2.OVNextEntry"),
